@@ -8,6 +8,7 @@ A == <<"a">>  AB == <<"a","b">>  AH == <<"a","#">>  AP == <<"a","+">>  SH == <<"
    with duplicates and identifiers that are not in flight (r = 0)                          *)
 SenderNext == steps < MaxSteps /\
   \/ (nreq < MaxReq /\ \E q \in 0..2 : AppPublish(q))
+  \/ (nreq < MaxReq /\ \E q \in 1..2 : AppPublishD(q, TRUE))
   \/ (nreq < MaxReq /\ (AppSubscribe(<<A>>) \/ AppUnsubscribe(<<A>>) \/ AppPing))
   \/ \E r \in 0..nreq : PeerPuback(r) \/ PeerPubrec(r) \/ PeerPubcomp(r) \/ PeerSuback(r, <<1>>) \/ PeerUnsuback(r)
   \/ PeerPingresp
